@@ -1201,11 +1201,13 @@ class MultiReader(IndexReader):
         crs = []
         doc_offsets = []
         for i, r in enumerate(self.readers):
-            if r.has_column(fieldname):
-                cr = r.column_reader(fieldname, column=column, reverse=reverse,
-                                     translate=translate)
-                crs.append(cr)
-                doc_offsets.append(self.doc_offsets[i])
+            # Sub-readers without a column file for this field return a reader
+            # of default values; leaving them out would make document numbers
+            # of such segments index into a neighbouring segment's column
+            cr = r.column_reader(fieldname, column=column, reverse=reverse,
+                                 translate=translate)
+            crs.append(cr)
+            doc_offsets.append(self.doc_offsets[i])
         return columns.MultiColumnReader(crs, doc_offsets)
 
     # Per doc methods
